@@ -419,34 +419,34 @@ Section Gen.
   (* the named-field branch of obj_loop *)
   Definition obj_named (k : nat) (s : str) : pres ofields :=
     match field_name s with
-    | None => PFail (skip s)
+    | None => PFail (skip s) true
     | Some (name, r) =>
         match skip r with
         | [] => POk (ONamed name (EField name) ONil) []
         | d :: r2 =>
             if (d =? 58)%N then
               match pc r2 with
-              | PFail p => PFail p
+              | PFail p w => PFail p w
               | POk v rest =>
                   match skip rest with
-                  | [] => PFail []
+                  | [] => PFail [] false
                   | d2 :: rest2 =>
                       if (d2 =? 125)%N then POk (ONamed name v ONil) (skip rest)
                       else if (d2 =? 44)%N then
                         match obj_loop pc k rest2 with
                         | POk more r3 => POk (ONamed name v more) r3
-                        | PFail p => PFail p
+                        | PFail p w => PFail p w
                         end
-                      else PFail (skip rest)
+                      else PFail (skip rest) true
                   end
               end
             else if (d =? 125)%N then POk (ONamed name (EField name) ONil) (skip r)
             else if (d =? 44)%N then
               match obj_loop pc k r2 with
               | POk more r3 => POk (ONamed name (EField name) more) r3
-              | PFail p => PFail p
+              | PFail p w => PFail p w
               end
-            else PFail (skip r)
+            else PFail (skip r) true
         end
     end.
 
@@ -567,14 +567,14 @@ Section Gen.
   (* object and array literals read by parse_lit *)
   Lemma p_lit_brace : forall x, p_lit pc (123%N :: x) =
     match obj_loop pc (S (length x)) x with
-    | PFail p => PFail p
-    | POk fs rest => match tok (lit "}") [] rest with Some rest2 => POk (EObj fs) rest2 | None => PFail (skip rest) end
+    | PFail p w => PFail p w
+    | POk fs rest => match tok (lit "}") [] rest with Some rest2 => POk (EObj fs) rest2 | None => PFail (skip rest) true end
     end.
   Proof. intro x. unfold p_lit. rewrite skip_head by (reflexivity || discriminate). reflexivity. Qed.
   Lemma p_lit_bracket : forall x, p_lit pc (91%N :: x) =
     match arr_loop pc (S (length x)) x with
-    | PFail p => PFail p
-    | POk fs rest => match tok (lit "]") [] rest with Some rest2 => POk (EArr fs) rest2 | None => PFail (skip rest) end
+    | PFail p w => PFail p w
+    | POk fs rest => match tok (lit "]") [] rest with Some rest2 => POk (EArr fs) rest2 | None => PFail (skip rest) true end
     end.
   Proof. intro x. unfold p_lit. rewrite skip_head by (reflexivity || discriminate). reflexivity. Qed.
 
@@ -671,24 +671,24 @@ Section Gen.
     match tok (lit ".") [lit ".."] s with
     | Some r => match field_name r with
                 | Some (name, rest) => member_loop pc n (EMember obj name) rest
-                | None => PFail (skip r)
+                | None => PFail (skip r) true
                 end
     | None =>
         match tok (lit "[") [] s with
         | Some r => match pc r with
-                    | PFail p => PFail p
+                    | PFail p w => PFail p w
                     | POk e rest => match tok (lit "]") [] rest with
                                     | Some rest2 => member_loop pc n (EIndex obj e) rest2
-                                    | None => PFail (skip rest)
+                                    | None => PFail (skip rest) (negb (is_nil (skip rest)))
                                     end
                     end
         | None =>
             match tok (lit "(") [] s with
             | Some r => match args_loop pc (S (length r)) r with
-                        | PFail p => PFail p
+                        | PFail p w => PFail p w
                         | POk args rest => match tok (lit ")") [] rest with
                                            | Some rest2 => member_loop pc n (ECall obj args) rest2
-                                           | None => PFail (skip rest)
+                                           | None => PFail (skip rest) (negb (is_nil (skip rest)))
                                            end
                         end
             | None => POk obj (skip s)
@@ -768,7 +768,7 @@ Section Gen.
 
   Lemma unary_loop_S : forall n s, unary_loop pc (S n) s =
     match first_op unops s with
-    | Some (u, rest) => match unary_loop pc n rest with POk e r => POk (EUn u e) r | PFail p => PFail p end
+    | Some (u, rest) => match unary_loop pc n rest with POk e r => POk (EUn u e) r | PFail p w => PFail p w end
     | None => p_member pc s
     end.
   Proof. reflexivity. Qed.
@@ -777,7 +777,7 @@ Section Gen.
     match first_op ops s with
     | Some (b, rest) => match next rest with
                         | POk r rest2 => level_loop next ops n (EBin b left r) rest2
-                        | PFail p => PFail p
+                        | PFail p w => PFail p w
                         end
     | None => POk left (skip s)
     end.
